@@ -34,6 +34,8 @@ def _run_config(args):
     e = core.Engine(qtimeout_ms=(20000 if tier == 'quick' else 120000),
                     loop_bound=getattr(mod, 'LOOP_BOUND', 64))
     e.tier = tier
+    budget = getattr(mod, 'CONFIG_BUDGET_S', {'quick': 240, 'thorough': 1800})[tier]
+    e.deadline = time.time() + budget
     try:
         mod.run_config(cfg, e)
     except core.BoundExceeded as ex:
@@ -42,6 +44,8 @@ def _run_config(args):
         res['error'] = 'inconclusive: %s' % ex
     except Exception:
         res['error'] = 'harness error: ' + traceback.format_exc()
+    if e.bound_exceeded and not res['bound']:
+        res['bound'] = '%d path(s): %s' % (len(e.bound_exceeded), e.bound_exceeded[0])
     res['stats'] = dict(e.stats)
     res['functions'] = sorted(e.functions)
     # replay counterexamples on the real code
@@ -49,6 +53,9 @@ def _run_config(args):
     for c in e.cex:
         try:
             failure = mod.replay(c['case'])
+        except core.TooLarge as ex:
+            failure = None
+            c['too_large'] = str(ex)
         except Exception:
             failure = 'replay crashed: ' + traceback.format_exc()
             c['replay_crashed'] = True
@@ -64,6 +71,9 @@ def _run_config(args):
     for w in e.witnesses[::step][:cap]:
         try:
             failure = mod.replay(w)
+        except core.TooLarge:
+            res['witness_too_large'] = res.get('witness_too_large', 0) + 1
+            continue
         except Exception:
             failure = 'replay crashed: ' + traceback.format_exc()
         nw += 1
@@ -140,6 +150,10 @@ def main(modname):
         if r['stats'].get('paths_completed', 0) == 0 and not r['cex'] and not r['error'] and not r['bound']:
             inconclusive.append({'cfg': r['cfg'], 'why': 'vacuous: no completed path'})
         for c in r['cex'] + r.get('witness_failures', []):
+            if c.get('too_large'):
+                inconclusive.append({'cfg': r['cfg'], 'why': 'counterexample too large to replay: %s %s' % (
+                    c['label'], c['too_large'])})
+                continue
             if not c['reproduced']:
                 inconclusive.append({'cfg': r['cfg'], 'why': 'counterexample does not reproduce on the '
                                      'real code (encoding/stub error): %s %s' % (c['label'], json.dumps(c['case'], default=str)[:400])})
